@@ -296,9 +296,10 @@ def generate(template_path: str, snapshot: str, exclude: dict | None = None) -> 
         fired.update(f)
         if d["fragment"]:
             text = fragment(text, file, *d["fragment"])
-            if d.get("splitarms"):
-                text, nsp = split_or_guard_arms(text, file)
-                fired.add(f"R7 ({nsp} or-pattern+guard arms split)")
+        if d.get("splitarms"):
+            text, nsp = split_or_guard_arms(text, file)
+            fired.add(f"R7 ({nsp} or-pattern+guard arms split)")
+        if d["fragment"]:
             if d.get("wrapper"):
                 # the fragment becomes the body of a generated wrapper fn whose parameters are the fragment's free locals;
                 # only the wrapper's signature, local initialisation and result expression come from the template
